@@ -103,7 +103,8 @@ def bounds(tier):
             "other lengths": "distinct positive integers (pre-order index)", "rootings": [True, False],
             "operations": "reseed_at, reroot_at_node, reroot_at_edge, reroot_at_midpoint, to_outgroup_position, every "
                           "target and flag setting; None read as 0 by the oracle; a TypeError of reroot_at_midpoint on "
-                          "a missing length is counted, not reported",
+                          "a missing length and the position of the midpoint root are counted, not decided (the four "
+                          "invariants and the rooting flag are)",
         },
         "rootings": "rooted, unrooted; undefined for the unit pattern" + (" (and none / distinct-integer patterns n <= 4)" if q else
                     ", none and distinct-integer patterns (n = 6: unit; binary shapes also distinct integers, non-dyadic, "
@@ -848,7 +849,11 @@ def run_case(case, ctx, bf=None, deciding=True):
     if op == "reroot_at_midpoint":
         D, pairs = bf.max_pairs(eq)
         rd = ref.root_distances(after)
-        if not any(eq(rd[x], D / 2.0) and eq(rd[y], D / 2.0) for (x, y) in pairs):
+        if not any(eq(rd[x], D / 2.0) and eq(rd[y], D / 2.0) for (x, y) in pairs) and partly:
+            # where the midpoint lies is not defined by the statement when lengths are missing (the library's
+            # own Node.distance_from_root then answers with the parent's edge length): counted only
+            ctx.count("info_midpoint_placement_differs_on_partly_None_lengths")
+        elif not any(eq(rd[x], D / 2.0) and eq(rd[y], D / 2.0) for (x, y) in pairs):
             outcome = report("reroot_at_midpoint%s|root-not-at-midpoint" % feature,
                              pre + "no most-distant pair (D=%r, pairs %s) is equidistant from the new root: root distances %s; result %s" % (
                                  D, pairs, sorted(rd.items()), show(after)))
